@@ -261,7 +261,14 @@ static void do_decode(struct enc *e, struct arr *a, int force, uint64_t flen_arg
         pl[i] = place_copy((g_override && g_override[i]) ? g_override[i] : e->frag[a->idx[i]], e->flen, a->off[i]);
         if (dmgmask && dmgmask[i]) {
             /* damage: flip a payload bit (1) or a header metadata bit (2) */
-            if (dmgmask[i] == 1 && e->flen > 80) pl[i].ptr[80 + (a->idx[i] % (e->flen - 80))] ^= 0x10;
+            /* the flipped payload bit lands anywhere in the payload (first, last, middle, beyond any chunk size) */
+            if (dmgmask[i] == 1 && e->flen > 80) {
+                static unsigned long flipctr; uint64_t pay = e->flen - 80, pos;
+                flipctr++;
+                pos = (flipctr % 4 == 0) ? (uint64_t)a->idx[i] % pay : (flipctr % 4 == 1) ? pay - 1 - ((uint64_t)a->idx[i] % pay)
+                                                                : (flipctr * 0x9E3779B1ULL + (uint64_t)a->idx[i]) % pay;
+                pl[i].ptr[80 + pos] ^= 0x10;
+            }
             else pl[i].ptr[1] ^= 0x01;
         }
         before[i] = dig32((unsigned char *)pl[i].ptr, e->flen);
